@@ -109,6 +109,7 @@ func init() {
 	})
 	registerOp("ip2ngap", func(a []string) string {
 		t := ngapConvert.IPAddressToNgap(string(aHex(a[0])), string(aHex(a[1])))
+		retainBytes(t.Value.Bytes) // the address octets handed out stay what they were when the next address is converted
 		return "ok " + u(t.Value.BitLength) + " " + hx(t.Value.Bytes)
 	})
 	registerOp("ngap2ip", func(a []string) string {
